@@ -34,7 +34,7 @@ DONE = {
   technique=PBT + ": history vs. MRU list model"),
  "C18": dict(level="exploration",
   text="Generated multi-document file stores are closed, the derived tables (heads, by-key index, or both) are deleted with plain redb, and the store is reopened 1..=4 times: heads are compared with the per-author maxima of the records, key-ordered queries with the naive executor of C05, everything else with the pre-deletion dump, and each further reopen with the previous one.",
-  note="Older databases are emulated by table deletion; the redb 2.x tuple-format migration is left to the repository's own tests.",
+  note="Older databases are emulated by table deletion, by moving the documents back into the old namespaces table and by re-encoding the file in the redb 2.x tuple format with redb 3.",
   technique=PBT + ": metamorphic (delete derived tables, reopen) + model oracle"),
  "C03": dict(level="exploration",
   text="A validly signed entry is tampered in every way the statement lists (bit flips / byte changes of each field and signature, borrowed or swapped signatures, other real keys or non-curve points as ids, every combination of claimed namespace id and signing secret (own/foreign), wrong author secrets, timestamps around now+10min under a pinned clock, the four emptiness combinations) and offered both as a single remote insert and inside crafted reconciliation messages through the store actor with a subscriber; acceptance, stored state and events must coincide with an independently evaluated validity predicate on both paths, and no other document of the receiving store may hold anything afterwards. All single-bit flips of one base entry are enumerated exhaustively in every run.",
@@ -90,7 +90,7 @@ EXTRA = {
  "C15": " Rare policies carry 126..300 filters; a small family sets and reads policies through the client API of a real engine, with a restart from disk.",
  "C17": " Some file-backed histories end with the lists read through the client API of a real engine opened on the database.",
  "C16": " Rare cases add 127..300 bystander documents (entries, policies, peers) that must be listed and unchanged at the end.",
- "C18": " The key each reported head names must survive every open that has nothing to rebuild.",
+ "C18": " The key each reported head names must survive every open that has nothing to rebuild. A fifth of the cases re-encode the whole file in the tuple format of the releases built on redb 2.x (redb 3's Legacy types) before it is opened; nothing observable - entries, heads, settings, remembered peers - may change.",
 }
 for k, v in EXTRA.items():
     DONE[k]["text"] += v
